@@ -26,6 +26,10 @@ type Cfg struct {
 	GPSalt uint64
 	Scale  int  // lattice step (1 default)
 	Big    bool // three times as many vertices per ring / line (stress stream)
+	// CenterOnP: ConcurrentPair translates the lattice so that its first concurrency point lies within one
+	// unit of the origin (every segment through it then starts farther from the origin than the crossing, and
+	// the rounding of the computed intersection parameter survives in the crossing's coordinates)
+	CenterOnP bool
 }
 
 type G struct {
@@ -947,20 +951,28 @@ func (g *G) ConcurrentPair() (a, b geom.Geometry, ok bool) {
 		if px%q == 0 && py%q == 0 {
 			continue
 		}
+		if g.Cfg.CenterOnP && found == 0 {
+			g.Cfg.FlipX, g.Cfg.FlipY = false, false
+			g.Cfg.OffX, g.Cfg.OffY = -(px/q)-g.R.Intn(2), -(py/q)-g.R.Intn(2)
+		}
 		// all lattice segments AB in the box with P strictly inside
 		type sg struct{ a, b ip }
 		var segs []sg
 		for ax := 0; ax <= S; ax++ {
 			for ay := 0; ay <= S; ay++ {
-				// direction from A to P scaled by q: (px - q ax, py - q ay); B = A + (t/q)(P-A) must be lattice
+				// q(P-A) = (dx,dy) = g0*(ux,uy) with (ux,uy) primitive: P sits at parameter g0/q along the lattice
+				// direction (ux,uy) from A; every lattice point B = A + m(ux,uy) with m > g0/q puts P strictly
+				// inside AB, at the (generally non-dyadic) fraction g0/(q m) of it
 				dx, dy := px-q*ax, py-q*ay
-				for t := q + 1; t <= 6*q; t++ { // t > q puts P strictly inside AB
-					if (t*dx)%(q*q) != 0 || (t*dy)%(q*q) != 0 {
-						continue
-					}
-					bx, by := ax+t*dx/(q*q), ay+t*dy/(q*q)
-					if bx < 0 || by < 0 || bx > S || by > S || (bx == ax && by == ay) {
-						continue
+				g0 := gcdInt(absInt(dx), absInt(dy))
+				if dx == 0 && dy == 0 {
+					continue
+				}
+				ux, uy := dx/g0, dy/g0
+				for m := g0/q + 1; m <= 2*S; m++ {
+					bx, by := ax+m*ux, ay+m*uy
+					if bx < 0 || by < 0 || bx > S || by > S {
+						break
 					}
 					if ax < bx || (ax == bx && ay < by) {
 						segs = append(segs, sg{ip{ax, ay}, ip{bx, by}})
@@ -982,7 +994,9 @@ func (g *G) ConcurrentPair() (a, b geom.Geometry, ok bool) {
 		for d := range byDir {
 			dirs = append(dirs, d)
 		}
-		sort.Slice(dirs, func(i, j int) bool { return dirs[i][0] < dirs[j][0] || (dirs[i][0] == dirs[j][0] && dirs[i][1] < dirs[j][1]) })
+		sort.Slice(dirs, func(i, j int) bool {
+			return dirs[i][0] < dirs[j][0] || (dirs[i][0] == dirs[j][0] && dirs[i][1] < dirs[j][1])
+		})
 		{
 			sh := make([][2]int, len(dirs))
 			for i, j := range g.R.Perm(len(dirs)) {
